@@ -104,8 +104,19 @@ macro_rules! one_type {
         const N: usize = $n;
         let name = stringify!($C);
         // three shapes: all from the edge set; safe values with one edge value; safe only
-        let shape = $d.int(0, 4);
+        let shape = $d.int(0, 5);
         let pos = $d.below(N);
+        // shape 5: the sparsity patterns of the library's own constructors (perspective / frustum, orthographic and affine,
+        // view matrices, 2-D homogeneous transforms): exact zeros, exact +-1 where the constructor puts them, values elsewhere
+        let pattern: &[u8] = match (N, $d.below(3)) {
+            (16, 0) => b"v0000v00eev-00v0",
+            (16, 1) => b"v0000v0000v0vvv1",
+            (16, _) => b"vvv0vvv0vvv0vvv1",
+            (9, 0) => b"vv0vv0vv1",
+            (9, _) => b"v000v0ee1",
+            (4, _) => b"v00v",
+            _ => b"",
+        };
         // side length when the components form a square (matrices; Vector4/Quaternion read as 2 x 2)
         let side = match N { 4 => 2, 9 => 3, 16 => 4, _ => 0 };
         let comps: Vec<$S> = (0..N)
@@ -114,6 +125,13 @@ macro_rules! one_type {
                 1 | 2 => if i == pos { <$S as P19>::edge($d) } else { <$S as P19>::safe($d) },
                 // every component at or next to 0/1, in the pattern of an identity matrix where there is one
                 4 => <$S as P19>::near01($d, if side > 0 { i / side == i % side } else { i == pos }),
+                5 if pattern.len() == N => match pattern[i] {
+                    b'0' => <$S as NumCast>::from(0u8).unwrap(),
+                    b'1' => <$S as NumCast>::from(1u8).unwrap(),
+                    b'-' => <$S as NumCast>::from(-1i8).unwrap_or_else(|| <$S as NumCast>::from(1u8).unwrap()),
+                    b'e' => if $d.bool() { <$S as P19>::edge($d) } else { <$S as P19>::safe($d) },
+                    _ => <$S as P19>::safe($d),
+                },
                 _ => <$S as P19>::safe($d),
             })
             .collect();
@@ -212,7 +230,7 @@ fn quat_to_exact<S: P19 + num_traits::Float + std::fmt::Debug>(d: &mut Draw) -> 
 
 pub fn property() -> Property {
     let mut s: Vec<SubCheck> = Vec::new();
-    const R: &str = "every generated compound value; shapes: all components from the edge set / safe values with one edge component at a drawn position / all safe / all components at or within 1e-6 of 0 and 1 in the pattern of an identity matrix";
+    const R: &str = "every generated compound value; shapes: all components from the edge set / safe values with one edge component at a drawn position / all safe / all components at or within 1e-6 of 0 and 1 in the pattern of an identity matrix / the sparsity patterns of the library's own constructors (perspective, affine, view, 2-D homogeneous) with exact 0, 1, -1 entries";
     macro_rules! row {
         ($S:ty, $sn:expr) => {
             row!(@t $S, $sn, u8, "u8"); row!(@t $S, $sn, u16, "u16"); row!(@t $S, $sn, u32, "u32"); row!(@t $S, $sn, u64, "u64"); row!(@t $S, $sn, usize, "usize");
